@@ -115,6 +115,7 @@ type Engine struct {
 	hooks     map[string]Value // harness-registered replacements (nd.Replace)
 	funcByName map[string]*ssa.Function
 	dumped, dumpSeen int
+	curTimerFires    int
 }
 
 type abort struct {
